@@ -1,5 +1,6 @@
 import PhysisModel.Driver.C06Case
 import PhysisModel.Spec.MdlEdit
+import PhysisModel.Spec.MdlRedundant
 import PhysisModel.Model.MdlWrite
 import PhysisModel.Base.Mutate
 namespace Physis.Driver.C07
@@ -203,18 +204,26 @@ def freeOk (m : AbstractModel) : Bool :=
 def kfTags (m : AbstractModel) : List String :=
   if hasUnwritable m then ["kf:c07.writer-unsupported-layout"] else []
 
-/-! ### redundant header copies (`wredun`) — correspondence only, no theorem
+/-! ### redundant header copies (`wredun`)
 
 The file header and the LOD table both store every LOD's vertex / index offsets and buffer sizes.
 `Spec.Mdl.encodeMdl` writes consistent copies; the reader uses `lods[i].vertex_data_offset` and
 `file_header.index_offsets[i]` only.  `wredun redun=<f>.<lod>.<delta>,… <model>` adds `delta` to a
 copy the reader does not use (`lio` = LOD-table index offset, `fvo` = file-header vertex offset,
-`fvs` / `fis` = file-header vertex / index buffer size, `lvs` / `lis` = LOD-table sizes): the file
-still parses to the same model, so parse → write → parse must report the same view, an unchanged
+`fvs` / `fis` = file-header vertex / index buffer size, `lvs` / `lis` = LOD-table sizes, `fss` / `frs` =
+stored stack / runtime size, `flc` = the file header's LOD count): the file is
+`Spec.Mdl.encodeMdlR a ρ` for the `ρ` that adds the deltas, it still parses to the same model
+(`c06_parse_redundant_partial`), so parse → write → parse must report the same view, an unchanged
 file header and unchanged model data (the in-bounds flag of the unedited header is not compared).
-The reading half is a theorem: `c06_parse_redundant_partial` (`Spec.Mdl.encodeMdlR`, every value of
-these copies and of the file header's LOD count / the LOD table's edge geometry offset);
-parse → write → parse on such files stays correspondence only. -/
+
+Theorems (`Properties/C07.lean`): unedited — `c07_write_redundant_partial` (tag `thm`; its
+hypothesis `keepsTail`, some declared section end reaches the end of the file, is evaluated here;
+cases outside it are tagged `corr`: correspondence only, `c07_write_redundant_bytes` still says the
+written file differs by trailing zeros only); with an edit history — `c07_edit_redundant_partial`
+(the file header's LOD count kept).  A history on a file whose file-header LOD count is smaller than
+the real one or larger than 3 is the class of the recorded finding `c07.file-lod-count`
+(`c07_edit_redundant_lodcount_witness`): the specification's answer stays the view of the edited
+model, the model of the code (4th field) reports what the code does. -/
 
 def setArr3 (a : Arr3 UInt32) (i : Nat) (f : UInt32 → UInt32) : Arr3 UInt32 :=
   match i with
@@ -236,7 +245,7 @@ def parseRedun (tok : String) : Option (List (String × Nat × Int)) := do
     | [f, l, d] => do
       let l ← l.toNat?
       let d ← d.toInt?
-      if l < 3 && ["lio", "fvo", "fvs", "fis", "lvs", "lis", "fss", "frs"].contains f then some (f, l, d) else none
+      if l < 3 && ["lio", "fvo", "fvs", "fis", "lvs", "lis", "fss", "frs", "flc"].contains f then some (f, l, d) else none
     | _ => none
 
 def redunFH (fh : FileHeader) (r : String × Nat × Int) : FileHeader :=
@@ -248,6 +257,8 @@ def redunFH (fh : FileHeader) (r : String × Nat × Int) : FileHeader :=
   -- looks at them (the LOD number of the token is not used)
   else if f == "fss" then { fh with stackSize := addDelta d fh.stackSize }
   else if f == "frs" then { fh with runtimeSize := addDelta d fh.runtimeSize }
+  -- the file header's LOD count (the reader loops over `ModelHeader.lodCount`); `u8`, wrapping
+  else if f == "flc" then { fh with lodCount := UInt8.ofNat ((fh.lodCount.toNat + d) % 256).toNat }
   else fh
 
 def redunMD (md : ModelData) (r : String × Nat × Int) : ModelData :=
@@ -270,10 +281,13 @@ def handle (line : String) : String :=
       if es.isEmpty then
         let (ans, _) := modelRun file [] true true
         let input := "editr " ++ Bytes.toHex file
+        -- `Redundant.keepsTail`: the largest declared section end of the stored file header
+        let keeps : Bool :=
+          decide ((encodeMdl a).length ≤ declaredEnd (rs.foldl redunFH (fileHeader a)))
         match inQuantifier a, view a with
         | true, some v =>
           answer input ("ok fheq=1 mdeq=1 sz=- pad=- dis=- inb=- " ++ viewText v)
-            (["corr", "redundant-copies"] ++ kfTags a) (some ans)
+            ([if keeps then "thm" else "corr", "redundant-copies"] ++ kfTags a) (some ans)
         | _, _ => answer input ans ["triv", whyOutside a]
       else
         -- an edit history on such a file: every edit ends with `update_headers`, which recomputes
@@ -286,11 +300,17 @@ def handle (line : String) : String :=
           -- a perturbed copy of a LOD the model does not use (index ≥ lod_count) is not touched by
           -- `update_headers`: the header-consistency flags, which look at all three slots, are then
           -- not the specification's business — model against code only
-          let unused := rs.any fun (f, l, _) => f != "fss" && f != "frs" && l ≥ a.lodCount.toNat
+          let unused := rs.any fun (f, l, _) => f != "fss" && f != "frs" && f != "flc" && l ≥ a.lodCount.toNat
+          -- the stored file-header LOD count: kept ⇒ `c07_edit_redundant_partial`; below the real
+          -- count or above 3 ⇒ class of the recorded finding `c07.file-lod-count`
+          let flc := (rs.foldl redunFH (fileHeader a)).lodCount
+          let lcTags : List String :=
+            if flc == a.lodCount then ["thm"]
+            else if flc < a.lodCount || flc > 3 then ["corr", "kf:c07.file-lod-count"] else ["corr"]
           match applyEdits a es with
           | some a' =>
             match inQuantifier a && inQuantifier a' && !unused, view a' with
-            | true, some v => answer input (specText true v) (["corr", "redundant-copies"] ++ kfTags a') (some ans)
+            | true, some v => answer input (specText true v) (lcTags ++ ["redundant-copies"] ++ kfTags a') (some ans)
             | _, _ => answer input ans ["triv", if inQuantifier a then whyOutside a' else whyOutside a]
           | none => answer input ans ["triv", "outside:edit"]
     | _, _, _ => bad
